@@ -3,6 +3,7 @@ Written for API *families* (not only the calls present in today's tree) so that 
 import re, itertools
 import z3
 from .engine import *
+from .mir import split_top
 from .models import HashMapM
 from .models2 import BTreeMapM
 
@@ -290,8 +291,17 @@ def register4(E):
     def _(e, c, a): l, lo, hi = bl(a[0]); return bsearch(e, l, lo, hi, lambda r: cmp3(e, e.closure_call(a[2], [r]), a[1]))
 
     # ---------------------------------------------------------------- collect
+    def inner_type(t):
+        i = t.index('<'); d = 0
+        for j in range(i, len(t)):
+            if t[j] == '<': d += 1
+            elif t[j] == '>' and t[j - 1] != '-':
+                d -= 1
+                if d == 0: return t[i + 1:j]
+        return t[i + 1:]
     def collect_into(e, target, items):
-        t = target
+        t = target.strip()
+        if t == '()' or (re.fullmatch(r'[A-Z]\w{0,2}', t) and all(x is UNIT or (isinstance(x, Agg) and x.ty == 'unit') for x in items)): return UNIT
         if re.search(r'HashMap<|BTreeMap<', t) and not re.match(r'\s*<?(Vec|SmallVec|std::vec::Vec|smallvec::SmallVec)<', t.lstrip('<')):
             if 'BTreeMap<' in t:
                 m = BTreeMapM()
@@ -328,13 +338,13 @@ def register4(E):
             for x in items:
                 if x.v == 'None': return NONE()
                 inner.append(x.f[0])
-            return SOME(collect_into(e, re.sub(r'^\s*<?(std::option::)?Option<', '', t), inner))
+            return SOME(collect_into(e, inner_type(t), inner))
         if re.match(r'\s*<?(std::result::)?Result<', t):
             inner = []
             for x in items:
                 if x.v == 'Err': return x
                 inner.append(x.f[0])
-            return OK(collect_into(e, re.sub(r'^\s*<?(std::result::)?Result<', '', t), inner))
+            return OK(collect_into(e, split_top(inner_type(t))[0], inner))
         if re.match(r'\s*<?(bstr::)?BString\b', t): return Vec(items, 'BString')
         if re.match(r'\s*<?(smallvec::)?SmallVec<', t): return Vec(items, 'SmallVec')
         if re.match(r'\s*<?(std::vec::|alloc::vec::)?Vec<', t) or t.strip() in ('', '_'): return Vec(items, 'Vec')
@@ -381,6 +391,20 @@ def register4(E):
         if isinstance(x, int) and isinstance(y, int): return min(x + y, (1 << bits) - 1)
         X = x if z3.is_bv(x) else z3.BitVecVal(x, bits); Y = y if z3.is_bv(y) else z3.BitVecVal(y, bits)
         return z3.If(z3.BVAddNoOverflow(X, Y, False), X + Y, z3.BitVecVal((1 << bits) - 1, bits))
+    OPS = {'BitXor': lambda x, y: x ^ y, 'BitAnd': lambda x, y: x & y, 'BitOr': lambda x, y: x | y, 'Add': lambda x, y: x + y, 'Sub': lambda x, y: x - y, 'Mul': lambda x, y: x * y}
+    @R(r'^<&?&?(u8|u16|u32|u64|usize|i32|i64) as (BitXor|BitAnd|BitOr|Add|Sub|Mul)(<.*>)?>::\w+$')
+    def _(e, c, a):
+        op = re.search(r' as (\w+)', c).group(1); ty = re.match(r'^<&*(\w+)', c).group(1)
+        x, y = deref(a[0]), deref(a[1]); r = OPS[op](x, y)
+        if isinstance(r, int):
+            bits = {'u8': 8, 'u16': 16, 'u32': 32, 'i32': 32}.get(ty, 64)
+            if op in ('Add', 'Sub', 'Mul') and not (0 <= r < (1 << bits)) and ty.startswith('u'): raise Panic('arithmetic overflow')
+        return r
+    @R(r'Option::<.*>::(iter|iter_mut|into_iter)$')
+    def _(e, c, a):
+        o = deref(a[0])
+        if o.v == 'None': return It('list', l=[], pos=0)
+        return It('list', l=[o.f[0] if c.endswith('into_iter') and not isinstance(a[0], Ref) else Ref(o.f, 0)], pos=0)
     @R(r'Option::<.*>::filter::<')
     def _(e, c, a):
         if a[0].v == 'None': return a[0]
